@@ -11,7 +11,7 @@ from fibertree import Fiber, Tensor, Payload, CoordPayload
 from fibertree.core.fiber import CoordinateError
 
 from mc import bfs, core
-from mc.obs import rawtree, rawfull, wf, interior_depths_ok, rank_index_view
+from mc.obs import rawtree, rawfull, wf, interior_depths_ok, rank_index_view, hidden_globals
 from mc.univ import mktree, RANK_IDS
 
 LEVEL = "model_checking"
@@ -148,6 +148,15 @@ def _leaf_ops(path, f, N, full):
         if (vals[i] if i is not None and i < len(vals) else 0) < VMAX:
             out.append(("ref", path, c, "inc"))
         out.append(("posref", path, c))
+        # the same look-ups with every *legal* search-start hint (a stored position whose coordinate is not above
+        # the one looked up).  A hint to the right of the coordinate is outside the precondition of the shortcut: on
+        # the unchanged tree getPositionRef(0, start_pos=1) on coordinates [0, 1] appends a second 0.
+        for sp in range(len(f.coords)):
+            if f.coords[sp] > c:
+                break
+            out.append(("posrefh", path, c, sp))
+            if full:
+                out.append(("refh", path, c, sp))
         for v in (0, 1):
             out.append(("append", path, c, v))
     # in-place arithmetic whose right operand is an element (CoordPayload) of the same fiber
@@ -161,7 +170,8 @@ def _leaf_ops(path, f, N, full):
                 out.append(("refel", path, c, pos, "*="))
     for g in SMALL:
         out.append(("extend", path) + g)
-    for pos in range(0, len(f.coords) + 1):
+    # positions count from the end as well (list indices): -1 is the last element, -(n+1) is out of range
+    for pos in list(range(0, len(f.coords) + 1)) + [-1, -len(f.coords) - 1]:
         for v in (0, 1):
             out.append(("setv", path, pos, v))
         for c in (range(N + 1) if full else (0, N)):
@@ -346,6 +356,10 @@ def _apply(S, op):
             r *= el
     elif k == "posref":
         f.getPositionRef(op[2])
+    elif k == "posrefh":
+        f.getPositionRef(op[2], start_pos=op[3])
+    elif k == "refh":
+        f.getPayloadRef(op[2], start_pos=op[3])
     elif k == "append":
         f.append(op[2], op[3])
     elif k == "extend":
@@ -435,7 +449,7 @@ def key(S):
     root = S.root
     sh = root.getRankAttrs().getShape()
     rk = rank_index_view(S.T) if S.T is not None else None
-    return (rawfull(root), sh, rk)
+    return (rawfull(root), sh, rk, hidden_globals())
 
 
 CASES = {"history": bfs.replay_case}
